@@ -2,6 +2,7 @@ import GeodeVerif.Proofs.C18
 import GeodeVerif.Lemmas.C18VelRows
 import GeodeVerif.Lemmas.C18ReadMat
 import GeodeVerif.Lemmas.C18Compose
+import GeodeVerif.Lemmas.C18DemoR
 /-!
 # C18, second part — `remove_velocity_sinex` refinement, readers, composition of edits
 
@@ -132,6 +133,14 @@ example (r : RSol) (htri : r.tri = .L) (b : Nat) :
     r.block b = [fval (r.mat b b), fval (r.mat (b + 1) b), fval (r.mat (b + 2) b),
       fval (r.mat (b + 1) (b + 1)), fval (r.mat (b + 2) (b + 1)), fval (r.mat (b + 2) (b + 2))] := by
   simp [RSol.block, htri]
+
+/-- the hypotheses of `readers_exact` are satisfiable (`rdemoV`: velocities, `U`, latitude
+`-0 40 12.4`), so e.g. the latitude read back is negative with 0 degrees -/
+example : readSites (render rdemoV.toSol) = .ok rdemoV.expectedSites :=
+  (readers_exact rdemoV rdemoV_wf rdemoV_fieldsOk).2.2
+
+example : (rdemoV.expectedSites.map (fun x => (x.lat.positive, x.lat.degree, x.lat.minute))) = [(false, 0, 40)] := by
+  decide +kernel
 
 /-! ## closure of well-formedness, composition of edits -/
 
